@@ -730,13 +730,20 @@ func cInts(xs []int) string {
 // classify the first bytes of an emitted record
 func shapeOf(b []byte) string {
 	s := string(b)
+	oneLine := strings.HasSuffix(s, "\n") && strings.Count(s, "\n") == 1
 	switch {
 	case strings.HasPrefix(s, "{"):
-		return "ShJSON"
+		if oneLine && strings.HasSuffix(s, "}\n") && !strings.Contains(s, "\x1b") {
+			return "ShJSON"
+		}
+		return "?" // starts like a JSON record but is not one object on one line without colours
+	case strings.HasPrefix(s, "time="):
+		if oneLine && !strings.Contains(s, "\x1b") {
+			return "ShLogfmt"
+		}
+		return "?"
 	case strings.Contains(s, "\x1b["):
 		return "ShColor"
-	case strings.HasPrefix(s, "time="):
-		return "ShLogfmt"
 	}
 	return "?"
 }
